@@ -3,6 +3,7 @@ package vmshape
 import (
 	"fmt"
 	"sort"
+	"strconv"
 	"strings"
 	"sync"
 
@@ -917,31 +918,135 @@ func (r *ruler) v11() {
 		}
 		break
 	}
+	r.readRule()
+}
+
+// readRule: V12 on the READ handler, over all of its paths.
+func (r *ruler) readRule() {
+	var first *Path
+	okReader, okPush := true, true
+	var badReader, badPush *Path
+	reader := ""
 	for _, pa := range r.m.Paths["READ"] {
+		rs := events(pa, "call", ".ReadString")
+		if pa.End == "return" || strings.HasPrefix(pa.End, "return") {
+			// V12c: the run ends with a read error only when nothing was read. A
+			// last line without a line break arrives together with io.EOF
+			// (ReadString's contract): it is a line of the input like any other
+			// ("without losing any", defect D31).
+			key := r.key("READ", "a line that arrives together with the read error is delivered")
+			if pa.Conds[0] != "ctxp.parent == nil" {
+				key += " (in a generator)"
+			}
+			line := ""
+			if len(rs) == 1 {
+				line = strings.TrimPrefix(strings.Split(rs[0].Res, ", ")[0], "(")
+			}
+			switch {
+			case line == "":
+				r.s.Unk("V12", key, r.ppos(pa), "an error exit of READ without exactly one ReadString before it", pa.Describe()...)
+			case decidedEmpty(pa.Conds, line):
+				r.s.OK("V12", key, r.ppos(pa), "the error exit is taken only when the text read is empty")
+			default:
+				r.s.Bad("V12", key, r.ppos(pa), "READ ends the run with the read error although ReadString may have returned text with it: the last line of an input that does not end in a line break is lost", pa.Describe()...)
+			}
+			continue
+		}
 		if pa.End != "next" {
 			continue
 		}
-		key := r.key("READ", "one buffered reader for the process")
-		nr := len(events(pa, "call", "bufio.NewReader")) + len(events(pa, "call", "bufio.NewScanner")) + len(events(pa, "call", "bufio.NewReaderSize"))
-		rs := events(pa, "call", ".ReadString")
-		if nr == 0 && len(rs) == 1 && strings.Contains(rs[0].Args[0], "global vm.") && rs[0].Args[1] == "10" {
-			r.s.OK("V12", key, r.ppos(pa), "reads a line from the package level reader "+rs[0].Args[0])
-		} else {
-			r.s.Bad("V12", key, r.ppos(pa), "read must take one whole line (ReadString('\\n')) from a buffered reader that outlives the instruction; a reader built per READ loses what it buffered", pa.Describe()...)
+		if first == nil {
+			first = pa
 		}
-		if len(rs) == 1 {
-			r.readerUses(strings.TrimPrefix(rs[0].Args[0], "global vm."))
+		nr := len(events(pa, "call", "bufio.NewReader")) + len(events(pa, "call", "bufio.NewScanner")) + len(events(pa, "call", "bufio.NewReaderSize"))
+		if !(nr == 0 && len(rs) == 1 && strings.Contains(rs[0].Args[0], "global vm.") && rs[0].Args[1] == "10") {
+			okReader = false
+			if badReader == nil {
+				badReader = pa
+			}
+		} else if reader == "" {
+			reader = rs[0].Args[0]
 		}
 		ps := events(pa, "call", ".Push")
 		ns := events(pa, "call", "value.NewString")
-		key2 := r.key("READ", "pushes the line read")
-		if len(rs) == 1 && len(ns) == 1 && ns[0].Args[0] == strings.TrimPrefix(strings.Split(rs[0].Res, ", ")[0], "(") && len(ps) == 1 && ps[0].Args[1] == ns[0].Res {
-			r.s.OK("V12", key2, r.ppos(pa), "NewString(line)")
-		} else {
-			r.s.Bad("V12", key2, r.ppos(pa), "read must push exactly the line returned by the reader", pa.Describe()...)
+		if !(len(rs) == 1 && len(ns) == 1 && ns[0].Args[0] == strings.TrimPrefix(strings.Split(rs[0].Res, ", ")[0], "(") && len(ps) == 1 && ps[0].Args[1] == ns[0].Res) {
+			okPush = false
+			if badPush == nil {
+				badPush = pa
+			}
 		}
-		break
 	}
+	if first == nil {
+		return
+	}
+	key := r.key("READ", "one buffered reader for the process")
+	if okReader {
+		r.s.OK("V12", key, r.ppos(first), "reads a line from the package level reader "+reader)
+	} else {
+		r.s.Bad("V12", key, r.ppos(badReader), "read must take one whole line (ReadString('\\n')) from a buffered reader that outlives the instruction; a reader built per READ loses what it buffered", badReader.Describe()...)
+	}
+	if reader != "" {
+		r.readerUses(strings.TrimPrefix(reader, "global vm."))
+	}
+	key2 := r.key("READ", "pushes the line read")
+	if okPush {
+		r.s.OK("V12", key2, r.ppos(first), "NewString(line) on every path that continues")
+	} else {
+		r.s.Bad("V12", key2, r.ppos(badPush), "read must push exactly the line returned by the reader", badPush.Describe()...)
+	}
+}
+
+// decidedEmpty: do the decisions of the path say that the string named line is
+// empty, however that is spelt (== "", len == 0, len < 1, !(len > 0), ...)?
+func decidedEmpty(conds []string, line string) bool {
+	for _, c := range conds {
+		i := strings.LastIndex(c, " := ")
+		if i < 0 || !strings.Contains(c, line) {
+			continue
+		}
+		want := c[i+4:] == "true"
+		e := c[:i]
+		e = strings.ReplaceAll(e, "=="+"("+line+",\"\")", "==(len("+line+"),0)")
+		e = strings.ReplaceAll(e, "==(\"\","+line+")", "==(len("+line+"),0)")
+		holds := func(n int) (bool, bool) {
+			x := strings.ReplaceAll(e, "len("+line+")", strconv.Itoa(n))
+			op := x
+			if j := strings.Index(x, "("); j > 0 && strings.HasSuffix(x, ")") {
+				op = x[:j]
+				ab := strings.Split(x[j+1:len(x)-1], ",")
+				if len(ab) != 2 {
+					return false, false
+				}
+				a, ea := strconv.Atoi(ab[0])
+				b, eb := strconv.Atoi(ab[1])
+				if ea != nil || eb != nil {
+					return false, false
+				}
+				switch op {
+				case "==":
+					return a == b, true
+				case "!=":
+					return a != b, true
+				case "<":
+					return a < b, true
+				case "<=":
+					return a <= b, true
+				case ">":
+					return a > b, true
+				case ">=":
+					return a >= b, true
+				}
+			}
+			return false, false
+		}
+		h0, ok0 := holds(0)
+		h1, ok1 := holds(1)
+		h9, ok9 := holds(9)
+		if ok0 && ok1 && ok9 && h0 == want && h1 != want && h9 != want {
+			return true
+		}
+	}
+	return false
 }
 
 // ctxIDs: which operand names the context id in each context opcode, and
